@@ -146,10 +146,16 @@ def build_history(rng, srv, spool, tier):
         timeline.append((t_add, "add", (uid, owner, text)))
         tasks[uid] = (owner, per)
         r = rng.random()
-        if r < 0.2:
+        if r < 0.3:
             text2, per2 = gen_task(rng, uid, now + span * 0.5, span)
-            timeline.append((now + span * rng.choice([0.4, 0.5, 0.6]), "add", (uid, owner, text2)))
-        elif r < 0.35:
+            tr = now + span * rng.choice([0.4, 0.5, 0.6])
+            if rng.random() < 0.5:
+                # the new definition is short and over well before the history is: jobs of the old one are still about when
+                # it is loaded, and it must be retired like any other
+                text2 = "\n".join(["BEGIN:VEVENT", "UID:" + uid, "SUMMARY:job " + uid, "DTSTART:" + fmt_dt(int(tr) + rng.choice([1, 2, 5])),
+                                   "RRULE:FREQ=SECONDLY;INTERVAL=%d;COUNT=%d" % (rng.choice([1, 2, 5]), rng.choice([1, 2, 3, 5])), "END:VEVENT"])
+            timeline.append((tr, "add", (uid, owner, text2)))
+        elif r < 0.45:
             timeline.append((now + span * rng.choice([0.3, 0.5, 0.7]), "cancel", (uid, owner)))
     timeline.sort(key=lambda x: x[0])
     # lifetimes of the children: instant, shorter than, equal to, longer than the period, never
